@@ -198,7 +198,7 @@ fn check_program(lines: &[String], replies: &[String], model: Option<&ProgramAst
 fn reentry_check(lines: &[String], replies: &[String], name: &str, acc: &mut Acc) {
     let numbers: Vec<u64> = lines.iter().filter_map(|l| l.split(' ').next().and_then(|n| n.parse().ok())).collect();
     for &target in &numbers {
-        for via_command in [false, true] {
+        for (via_command, pending_reply) in [(false, false), (true, false), (false, true), (true, true)] {
             let mut s = Sess::new();
             let mut hist = vec![];
             for l in lines {
@@ -207,8 +207,25 @@ fn reentry_check(lines: &[String], replies: &[String], name: &str, acc: &mut Acc
                 hist.push(e);
             }
             let mut it = replies.iter().cloned();
-            let _ = s.run_line("RUN", &mut it, 300);
-            hist.push(Ev::LineToIdle("RUN".into()));
+            if pending_reply {
+                // stop the run at its first input request, answer it, and break in before the
+                // INPUT statement is resumed: the reply is still pending when GOTO is typed
+                if replies.is_empty() {
+                    continue;
+                }
+                let mut none = std::iter::empty();
+                let e = s.run_line("RUN", &mut none, 300);
+                hist.push(Ev::LineToIdle("RUN".into()));
+                if e != RunEnd::NoReply {
+                    continue;
+                }
+                let r = Ev::Input(replies[replies.len() - 1].clone());
+                let _ = s.apply(&r);
+                hist.push(r);
+            } else {
+                let _ = s.run_line("RUN", &mut it, 300);
+                hist.push(Ev::LineToIdle("RUN".into()));
+            }
             if s.state() != abasic_core::InterpreterState::Idle {
                 let _ = s.apply(&Ev::Break);
                 hist.push(Ev::Break);
